@@ -77,11 +77,14 @@ class DftCase:
         if kind == "wake":
             return "wake " + self._setup_text()
         if kind == "wakeseq":
+            # <nmore> <ops of call 0> [z sets of call 0]  then per further call: <ops> profiles [z sets]; see harness/impl_dft.cpp
             more = self.calls[1:]
-            t = "wakeseq " + self._setup_text() + "%d\n" % len(more)
-            btw = getattr(self, "between", None) or ["W"] * len(self.calls)
+            btw = self.ops()
+            zadd = getattr(self, "zadd", None) or [[] for _ in self.calls]
+            zt = lambda zs: "".join(" " + " ".join(fhex(v) for v in zr) + " " + " ".join(fhex(v) for v in zi) for zr, zi in zs)
+            t = "wakeseq " + self._setup_text() + "%d %s%s\n" % (len(more), btw[0], zt(zadd[0]))
             for k, profs in enumerate(more):
-                t += btw[k + 1] + " " + " ".join(fhex(v) for pr in profs for v in pr) + "\n"
+                t += btw[k + 1] + " " + " ".join(fhex(v) for pr in profs for v in pr) + zt(zadd[k + 1]) + "\n"
             return t
         if kind == "csrmb":
             pre = getattr(self, "pre", [])
@@ -90,7 +93,7 @@ class DftCase:
                 t += "%s %s\n" % (k, " ".join(fhex(v) for pr in profs for v in pr))
             return t
         warm = getattr(self, "warm", None) or []
-        return "csr " + self._setup_text() + fhex(self.cutoff) + "\n%d\n" % len(warm) + \
+        return "csr " + self._setup_text() + fhex(self.cutoff) + "\n%d %d\n" % (len(warm), 1 if getattr(self, "same", False) else 0) + \
             "".join(" ".join(fhex(v) for pr in profs for v in pr) + "\n" for profs in warm)
 
     def bunch_case(self, b):
@@ -102,10 +105,27 @@ class DftCase:
         c.passive = getattr(self, "passive", False)
         return c
 
+    def ops(self):
+        """per call: the string of operations run on the object before that wakePotential() (harness/impl_dft.cpp: W/- nothing,
+        P padBunchProfiles, C updateCSR(0), Z impedance += next set of `zadd`; lower case: before the profiles of the call are set)"""
+        return list(getattr(self, "between", None) or ["W"] * len(self.calls))
+
+    def impedance_at(self, k):
+        """the table the field's (shared, mutable) impedance object holds when call k is made: complex<float> += per Z"""
+        zre, zim = list(self.zre), list(self.zim)
+        zadd = getattr(self, "zadd", None) or []
+        for j in range(min(k + 1, len(zadd))):
+            for dre, dim in zadd[j]:
+                zre = [f32(a + b) for a, b in zip(zre, dre)]
+                zim = [f32(a + b) for a, b in zip(zim, dim)]
+        return zre, zim
+
     def call_case(self, k):
         """call k of a sequence of wakePotential() calls on one object, as a wake case of its own: by
-        C06_generated_wake_is_convolution the result is that of a fresh object given the profiles of call k"""
-        c = DftCase("%s@%d" % (self.cid, k), self.N, self.n, self.s, self.buckets, self.zre, self.zim, self.calls[k], self.axes, self.phys,
+        C06_generated_wake_is_convolution the result is that of a fresh object given the profiles of call k
+        (and the impedance the object holds at that moment)"""
+        zre, zim = self.impedance_at(k)
+        c = DftCase("%s@%d" % (self.cid, k), self.N, self.n, self.s, self.buckets, zre, zim, self.calls[k], self.axes, self.phys,
                     note=self.note)
         c.seq = (self, k)
         return c
@@ -152,16 +172,18 @@ class DftCase:
             d = self.replay("wake")
             d["kind"] = "wakeseq"
             d["calls"] = [[[fhex(v) for v in pr] for pr in profs] for profs in self.calls]
-            d["between"] = getattr(self, "between", None) or ["W"] * len(self.calls)
+            d["between"] = self.ops()
+            d["zadd"] = [[[[fhex(v) for v in zr], [fhex(v) for v in zi]] for zr, zi in zs] for zs in (getattr(self, "zadd", None) or [])]
             return d
         if kind == "csrmb":
             d = self.replay("csr")
             d["kind"] = "csrmb"
             d["pre"] = [dict(op=k, prof=[[fhex(v) for v in pr] for pr in profs]) for k, profs in getattr(self, "pre", [])]
             return d
-        if kind == "csr" and getattr(self, "warm", None):
+        if kind == "csr" and (getattr(self, "warm", None) or getattr(self, "same", False)):
             d = dict(self.replay("csr-"), kind="csr")
-            d["warm"] = [[[fhex(v) for v in pr] for pr in profs] for profs in self.warm]
+            d["warm"] = [[[fhex(v) for v in pr] for pr in profs] for profs in (getattr(self, "warm", None) or [])]
+            d["same_object"] = bool(getattr(self, "same", False))
             return d
         if kind == "csr-":
             kind = "csr"
@@ -469,10 +491,27 @@ def gen_wake_cases(ctx, count, sizes, prefix="w"):
     return cases
 
 
+OPS_FIRST = ["W"] * 5 + ["C", "C", "P", "PC", "CP", "Z", "ZC"]
+OPS_LATER = ["W"] * 4 + ["C", "P", "PC", "PC", "CP", "PCP", "p", "c", "pC", "pc", "cP", "Z", "Z", "ZC", "PCZ", "pZ"]
+OPS_NAMES = {"W": "nothing", "-": "nothing", "C": "updateCSR", "P": "padBunchProfiles", "Z": "impedance+=",
+             "p": "padBunchProfiles(before the profiles change)", "c": "updateCSR(before the profiles change)"}
+
+
+def ops_text(ops, change=""):
+    """'pC', '<profiles change>; ' -> 'padBunchProfiles(); <profiles change>; updateCSR(); ' (for messages)"""
+    lo = "".join(OPS_NAMES[o].split("(")[0] + "(); " for o in ops if o.islower())
+    up = "".join((OPS_NAMES[o] + " ..; " if o == "Z" else OPS_NAMES[o] + "(); ") for o in ops if o.isupper() and o != "W")
+    return lo + change + up
+
+
 def gen_wakeseq_cases(ctx, count, sizes, prefix="s"):
     """2-3 wakePotential() calls on ONE object with changing profiles (the last one sometimes the first again, or empty);
     impedances mostly with exact zeros (band-limited, stop band, leading zeros, single cells), so that a cell of the loss
-    spectrum the code does not rewrite on a later call would show.  Every call is judged by the direct-DFT oracle."""
+    spectrum the code does not rewrite on a later call would show.  Every call is judged by the direct-DFT oracle.
+    Strengthening st3weak (seeds C06-I, C06-J, C07-I): what happens on the object between two calls is a STRING of
+    operations (padBunchProfiles / updateCSR in both orders, before and after the profiles change, also ahead of the very
+    first call), the impedance OBJECT the field shares with its creator is changed between calls (operator+=), and a call
+    repeats the profiles of the call before bit for bit (alone or together with the former two)."""
     rng = ctx.rng
     cases = []
     for i in range(count):
@@ -494,16 +533,44 @@ def gen_wakeseq_cases(ctx, count, sizes, prefix="s"):
         elif rng.random() < 0.1:
             calls[-1] = [[0.0] * n for _ in bks]               # an empty last call
             kinds[-1] = "zero"
+        same = []
+        for k in range(1, ncalls):
+            if rng.random() < 0.3:
+                calls[k] = [list(pr) for pr in calls[k - 1]]  # bit-identical to the call before
+                kinds[k] = "same-as-before"
+                same.append(k)
         axes, phys = _axes_phys(rng)
         c = DftCase("%s%d" % (prefix, i), N, n, s, bks, zre, zim, calls[0], axes, phys,
                     note="%s[%s]/%s/%s" % (zk, band, " ; ".join(kinds), lk))
         c.calls = calls
-        # what else is called on the object between two wakePotential() calls: mostly nothing, sometimes updateCSR(0) or
-        # padBunchProfiles() with the new profiles (interleavings as such belong to C18; here only the wake is judged)
-        c.between = ["W"] + [rng.choice(["W", "W", "W", "C", "P"]) for _ in calls[1:]]
+        # what else happens to the object ahead of each wakePotential() call (interleavings as such belong to C18; here
+        # only the wake is judged, against the CURRENT profiles and the CURRENT table of the impedance object)
+        c.between = [rng.choice(OPS_FIRST)] + [rng.choice(OPS_LATER) for _ in calls[1:]]
+        for k in same:          # same profiles: what else can have changed is the impedance object / the shared buffers
+            if rng.random() < 0.6:
+                c.between[k] = rng.choice(["Z", "Z", "ZC", "CZ", "C", "PC"])
+        c.zadd = []
+        for k, ops in enumerate(c.between):
+            zs = []
+            for o in ops:
+                if o == "Z":
+                    dre, dim = _impedance(rng, N, rng.choice(["random", "passive"]))
+                    if rng.random() < 0.4:
+                        dre, dim = _apply_band(rng, N, dre, dim, rng.choice(["trailing", "interior", "sparse", "half"]))
+                    zs.append((dre, dim))
+            c.zadd.append(zs)
         cases.append(c)
-        for bt in c.between[1:]:
-            ctx.count("wakeseq:between-calls=" + {"W": "nothing", "C": "updateCSR", "P": "padBunchProfiles"}[bt])
+        for k, ops in enumerate(c.between):
+            for o in set(ops):
+                ctx.count("wakeseq:%s=%s" % ("before-first-call" if k == 0 else "between-calls", OPS_NAMES[o]))
+            if len(ops) > 1:
+                ctx.count("wakeseq:several-operations-between-calls")
+            if "Z" in ops and k in same:
+                ctx.count("wakeseq:impedance-changed-profiles-identical")
+            if k > 0 and "C" in ops.upper() and "P" in ops.upper():
+                ctx.count("wakeseq:padBunchProfiles-and-updateCSR-between-calls")
+        for k in same:
+            ctx.count("wakeseq:profiles-identical-to-the-call-before")
         ctx.count("wakeseq:N=%d" % N)
         ctx.count("wakeseq:nb=%d" % len(bks))
         ctx.count("wakeseq:impedance=" + zk)
@@ -603,6 +670,11 @@ def gen_csr_cases(ctx, count, sizes, prefix="c"):
             # the object that gives the wake for Parseval has served 1-2 other profiles before
             c0.warm = c1.warm = [[_profile(rng, n, rng.choice(["random", "signed", "int", "gauss"]))] for _ in range(rng.choice([1, 1, 2]))]
             ctx.count("csr:wake-object-with-%d-earlier-calls" % len(c0.warm))
+        # the wake for Parseval from the SAME object right after updateCSR() (they share the padded buffer) in half of the cases
+        c0.same = c1.same = rng.random() < 0.5
+        ctx.count("csr:wake-from-" + ("the-same-object-after-updateCSR" if c0.same else "a-second-object"))
+        if c0.same and bk * s > 0:
+            ctx.count("csr:wake-from-the-same-object-after-updateCSR,bunch-not-at-cell-0")
         cases.append((c0, c1))
         ctx.count("csr:N=%d" % N)
         ctx.count("csr:impedance=" + zk)
